@@ -99,6 +99,7 @@ PROPS = {
             "BPT.Tie.rust_rebalance_tests",
         ],
         "suites": [
+            {"kind": "rust", "suite": "tree-exh", "quick": {"cases": 65536, "len": 4}, "thorough": {"cases": 131072, "len": 5}},
             {"kind": "rust", "suite": "tree-ops",
              "quick": {"cases": 500, "len": 300}, "thorough": {"cases": 3000, "len": 400}},
         ],
@@ -119,6 +120,7 @@ PROPS = {
         ],
         "ties": ["BPT.Tie.no_interior_mutability", "BPT.Tie.rust_null_node"],
         "suites": [
+            {"kind": "rust", "suite": "tree-exh", "quick": {"cases": 8192, "len": 3}, "thorough": {"cases": 65536, "len": 4}},
             {"kind": "rust", "suite": "tree-iter",
              "quick": {"cases": 600, "len": 150}, "thorough": {"cases": 2000, "len": 200}},
         ],
@@ -145,6 +147,7 @@ PROPS = {
             "BPT.Tie.rust_leaf_insert_goes_left_eq", "BPT.Tie.rust_branch_split_mid_eq",
             "BPT.Tie.rust_rebalance_tests"],
         "suites": [
+            {"kind": "rust", "suite": "tree-exh", "quick": {"cases": 65536, "len": 4}, "thorough": {"cases": 131072, "len": 5}},
             {"kind": "rust", "suite": "tree-ops",
              "quick": {"cases": 500, "len": 300}, "thorough": {"cases": 3000, "len": 400}},
         ],
@@ -165,6 +168,7 @@ PROPS = {
         ],
         "ties": ["BPT.Tie.rust_null_node", "BPT.Tie.rust_default_capacity"],
         "suites": [
+            {"kind": "rust", "suite": "tree-exh", "quick": {"cases": 8192, "len": 3}, "thorough": {"cases": 65536, "len": 4}},
             {"kind": "rust", "suite": "tree-ops",
              "quick": {"cases": 500, "len": 300}, "thorough": {"cases": 3000, "len": 400}},
         ],
@@ -206,6 +210,7 @@ PROPS = {
         ],
         "ties": ["BPT.Tie.no_manual_ownership", "BPT.Tie.rust_default_capacity"],
         "suites": [
+            {"kind": "rust", "suite": "tree-exh", "quick": {"cases": 8192, "len": 3}, "thorough": {"cases": 65536, "len": 4}},
             {"kind": "rust", "suite": "tree-ops",
              "quick": {"cases": 500, "len": 300}, "thorough": {"cases": 3000, "len": 400},
              "miri": {"thorough": {"procs": 8, "cases": 2, "len": 40}}},
@@ -246,6 +251,8 @@ PROPS = {
              "miri": {"thorough": {"procs": 6, "cases": 3, "len": 60}}},
             {"kind": "rust", "suite": "tree-range", "quick": {"cases": 120, "len": 120}, "thorough": {"cases": 1000, "len": 200},
              "miri": {"thorough": {"procs": 6, "cases": 3, "len": 50}}},
+            {"kind": "rust", "suite": "tree-faults", "quick": {"cases": 600, "len": 120}, "thorough": {"cases": 6000, "len": 200},
+             "miri": {"thorough": {"procs": 6, "cases": 3, "len": 40}}},
         ],
         "nontrivial": "the hooked build asserts the documented precondition inside every unchecked accessor; a case is non-trivial as in C01/C02/C03; distinct = distinct op-line sequences",
         "trusted_extra": ["'no undefined behaviour' beyond the catalogued unchecked sites rests on safe Rust: the translator inventory shows no other `unsafe` token in the crate (tie lemma)"],
@@ -382,6 +389,7 @@ PROPS = {
             "BPT.Props.C13.Legacy.capacity_truncates", "BPT.Props.C13.Legacy.leaf_split_leaks",
             "BPT.C.insertLeaf_refs", "BPT.C.insertBranch_refs", "BPT.C.insertRec_refs", "BPT.C.deleteRec_refs", "BPT.C.setitem_refs",
             "BPT.C.new_spec",
+            "BPT.Props.C13.failed_call_keeps_nothing", "BPT.C.raisingCall_state", "BPT.C.raisingCall_refs", "BPT.C.searchCompares_of_root_keys",
         ],
         "ties": C_TIES,
         "suites": [
@@ -393,3 +401,100 @@ PROPS = {
                           "the iterator object's own reference on the tree object (Py_INCREF(self) in iter/items, Py_XDECREF in its dealloc) is pinned by source-text ties and observed by the lifecycle audit; tree-object reference counts are not part of the model (it counts key and value objects)"],
     },
 }
+
+
+# --------------------------------------------------------------------------
+# tie lemmas per property
+# --------------------------------------------------------------------------
+# Ties are elaborated one by one (./check tie_audit), so each property lists exactly the lemmas about
+# source its own model transcribes: an edit that breaks some other property's tie leaves this one quiet.
+
+_PY_C07_ONLY = {"BPT.TiePy." + n for n in (
+    "py_get_checks_presence_eq py_get_return_eq py_len_iterative_eq py_api_pop_eq py_api_popitem_eq py_api_setdefault_eq "
+    "py_api_copy_eq py_api_getitem_eq py_api_contains_eq py_api_delitem_eq py_api_bool_eq").split()}
+_PY_C08_ALSO_C07 = {"BPT.TiePy." + n for n in "py_items_tests_eq py_items_for_eq py_find_position_in_leaf_tests_eq".split()}
+_PY_C09_ONLY = {"BPT.TiePy." + n for n in "py_sorted_fast_test_eq py_sorted_fast_body_eq".split()}
+_PY_CLEAR = {"BPT.TiePy.py_api_clear_eq"}
+_PY_SHARED = [t for t in PY_TIES if t not in _PY_C07_ONLY | _PY_C08_ALSO_C07 | _PY_C09_ONLY | _PY_CLEAR]
+PROPS["C07"]["ties"] = _PY_SHARED + sorted(_PY_C07_ONLY | _PY_C08_ALSO_C07 | _PY_CLEAR)
+PROPS["C08"]["ties"] = _PY_SHARED + sorted(_PY_C08_ALSO_C07)
+PROPS["C09"]["ties"] = _PY_SHARED + sorted(_PY_C09_ONLY | _PY_CLEAR)
+
+_C_C13_ONLY = {"BPT.TieC." + n for n in "c_refcount_sites_eq c_alloc_via_type_slots_eq c_src_BPlusTreeIterator_dealloc_eq c_header_bits".split()}
+PROPS["C12"]["ties"] = [t for t in C_TIES if t not in _C_C13_ONLY]
+PROPS["C13"]["ties"] = list(C_TIES)
+
+
+def _rust_snapshot():
+    import json
+    import os
+    path = os.path.join(os.path.dirname(os.path.abspath(__file__)), "rustfn_snapshot.json")
+    try:
+        return json.load(open(path))
+    except (OSError, ValueError):
+        return {"functions": {}, "residues": {}, "property_functions": {}, "property_residues": {}}
+
+
+_SNAP = _rust_snapshot()
+
+
+def _mangle(name):
+    import re
+    return re.sub(r"[^A-Za-z0-9]", "_", name)
+
+
+def rust_fn_ties(pid):
+    fs = _SNAP["property_functions"].get(pid, [])
+    rs = _SNAP["property_residues"].get(pid, [])
+    return ["BPT.TieRust.rustfn_%s_eq" % _mangle(n) for n in fs] + ["BPT.TieRust.rustres_%s_eq" % _mangle(f) for f in rs]
+
+
+def _src_snapshot():
+    import json
+    import os
+    path = os.path.join(os.path.dirname(os.path.abspath(__file__)), "srcfn_snapshot.json")
+    try:
+        return json.load(open(path))
+    except (OSError, ValueError):
+        return {"functions": {}, "property_functions": {}}
+
+
+_SRC = _src_snapshot()
+
+
+def src_fn_ties(pid):
+    return ["BPT.TieSrc.srcfn_%s_eq" % _mangle(n) for n in _SRC["property_functions"].get(pid, [])]
+
+
+def ties_for(pid):
+    return list(PROPS[pid].get("ties", [])) + rust_fn_ties(pid) + src_fn_ties(pid)
+
+
+def tie_detail(name):
+    """for a broken source-text tie of a Rust function: a unified diff of its normalised text (snapshot the model
+    was written against vs /repo now)"""
+    import difflib
+    import json
+    import os
+    import re
+    m = re.match(r"BPT\.TieRust\.(rustfn|rustres)_(.*)_eq$", name)
+    if not m:
+        return ""
+    kind, mg = m.group(1), m.group(2)
+    table = _SNAP["functions"] if kind == "rustfn" else _SNAP["residues"]
+    key = next((k for k in table if _mangle(k) == mg), None)
+    if key is None:
+        return ""
+    cur_path = os.path.join(os.path.dirname(os.path.abspath(__file__)), "..", "build", "rustfn_current.json")
+    try:
+        cur = json.load(open(cur_path))
+    except (OSError, ValueError):
+        return " [%s]" % key
+    now = cur["functions" if kind == "rustfn" else "residues"].get(key)
+    if now is None:
+        return " [%s: no longer present in the source]" % key
+
+    def toks(t):
+        return re.sub(r"([;{}])", r"\1\n", t).split("\n")
+    diff = [l for l in difflib.unified_diff(toks(table[key]["text"]), toks(now), "model was written against", "/repo now", lineterm="", n=1)]
+    return " [%s] source changed:\n%s" % (key, "\n".join(diff[:40]))
